@@ -1104,7 +1104,9 @@ func (l *Local) canDispose() bool {
 	case "trunk", "erdma":
 		return false
 	}
-	if l.eni.Trunk {
+	// the slot type is "secondary" for a trunk or erdma eni the daemon does not run as such (feature switched
+	// off after the node got the eni), only the eni itself tells what it is
+	if l.eni.Trunk || l.eni.ERdma {
 		return false
 	}
 	// jobs moved to danging are served by the ips just assigned, their workers have not picked them yet
